@@ -35,6 +35,7 @@ def make_config(rng, profile, tier):
         cfg['N'] = max(cfg['N'], 6)
         # the same parameter declared by two Beta objects (a helper called twice): merged by name everywhere
         cfg['dup_objects'] = rng.random() < 0.3
+        cfg['inf_bounds'] = rng.random() < 0.3      # absent bounds written as infinite numbers instead of None
         cfg['weight'] = rng.choice([None, None, 'col'])
         cfg['bound_plan'] = [rng.choice(['none', 'none', 'wide', 'active_upper', 'active_lower', 'one_sided', 'zero'])
                              for _ in range(cfg['K'])]
